@@ -11,6 +11,7 @@ import gen_ast
 import gen_prog
 import gen_text
 import vlib
+import st_corr
 from vlib import hexs
 
 NEED_BIN = False
@@ -19,8 +20,12 @@ MANIFEST_ENTRY = {
                  "back to the same tree (every expression tree, any depth); model/renderer correspondence; parse-render-parse search over "
                  "generated units and fixtures with Rust's own library equality and text fixed point",
     "text": "Proved (expressions): for every expression tree the rendered token sequence is a well-formed spelling whose parse is "
-            "the tree, hence rendering is a fixed point on that scope. For declarations and statements the round trip is decided by "
-            "search: every generated unit and every fixture is parsed, rendered, re-parsed and compared with Rust's ==; the second "
+            "the tree, hence rendering is a fixed point on that scope; (statements) what the renderer model writes for a statement "
+            "list -- assignments, calls with all parameter forms, IF / ELSIF / ELSE, FOR [BY], WHILE, REPEAT, EXIT, RETURN, any nesting "
+            "-- is a well-formed spelling of the list, so the parser model reads back exactly the list, through the function-block "
+            "entry point and with its fuel; the guard excludes negative integer constants (written '- 5': refuted by a witness, "
+            "the recorded finding) and empty loop / ELSIF bodies. The renderer model is compared token for token with write_to_string. "
+            "For declarations and the remaining statement forms the round trip is decided by search: every generated unit and every fixture is parsed, rendered, re-parsed and compared with Rust's ==; the second "
             "rendering must equal the first. The renderer has several recorded defects (known findings) whose classes are excluded by "
             "predicates on the unit and on the way the round trip fails.",
     "note": "Trusted: Coq kernel, harness op roundtrip (parse_program, write_to_string, Rust ==). Known findings (the repository's golden "
@@ -187,7 +192,10 @@ def search(run, info):
                 run.cov["disagreements_checked"] += 1
                 run.violation("correspondence", "renderer model and write_to_string differ: model %r, renderer %r" % (" ".join(model_toks)[:150], " ".join(impl_toks)[:150]),
                               {"input": {"text": t}}, no_input=True)
+    # ---- the statement renderer model (C10_statements_parse_render) against write_to_string ----
+    st_render_n = st_corr.check_render(run, info, 200 if run.tier == "quick" else 4000, "c10")
     return {"coverage": {
+        "statement_renderer_outputs_compared_with_model": st_render_n,
         "rule": "parse -> render -> parse -> render on units of the AST-level generator, the exhaustive operator-pair and statement-nesting "
                 "families, the character-string escape family, bodies of empty statements, bodies of the statement-model generator, every repository fixture and the witnesses of the recorded renderer gaps; sources the parser rejects are skipped; a failed "
                 "round trip is attributed to a known finding only when the way it fails matches that finding's pattern and (for AST-level "
